@@ -122,10 +122,35 @@ def gen_history(rng, kind, length, bad_rate=0.0):
     return toks
 
 
+def gadget_prefix(rng, kind):
+    """builds a union of semantic gadgets (floating acceptance, cliques, odd cycles, self-attackers ...) through
+    update calls in random order, with queries in between; labels 60.. so that the random part that follows
+    (labels below 50) works next to it, sometimes preceded by an argument that is removed again (sparse ids)"""
+    import gen
+    n, atts = gen.gadget_union(rng, 5)
+    labs = [60 + i for i in range(n)]
+    toks = []
+    if rng.random() < 0.4:
+        toks += ["A59", "R59"]
+    order = list(range(n))
+    rng.shuffle(order)
+    toks += ["A%d" % labs[i] for i in order]
+    atts = list(dict.fromkeys(atts))
+    rng.shuffle(atts)
+    queries = KINDS[kind]
+    for (a, b) in atts:
+        toks.append("+%d>%d" % (labs[a], labs[b]))
+        if rng.random() < 0.2:
+            toks.append("?%s%d:%d" % (rng.choice(queries), rng.choice([0, 1]), rng.choice(labs)))
+    for _ in range(rng.randint(1, 4)):
+        toks.append("?%s%d:%d" % (rng.choice(queries), rng.choice([0, 1]), rng.choice(labs)))
+    return toks
+
+
 class DynProperty(Property):
     families = ["dyn"]
     bad_rate = 0.0
-    assumptions = ["CaDiCaL assumed sound and complete", "the framework 'as it stands' is a shadow AAFramework kept by the harness (only accepted updates applied); frameworks have at most 7 live arguments so that every answer is judged by the proved deciders"]
+    assumptions = ["CaDiCaL assumed sound and complete", "the framework 'as it stands' is a shadow AAFramework kept by the harness (only accepted updates applied); frameworks have at most 12 live arguments (random part at most 7, optionally next to a union of semantic gadgets of at most 5) so that every answer is judged by the proved deciders"]
 
     def cases(self, tier, rng):
         lines = []
@@ -134,6 +159,8 @@ class DynProperty(Property):
             k = per if not kind.startswith("dummy") else max(6, per // 4)
             for _ in range(k):
                 toks = gen_history(rng, kind, rng.randint(5, 40 if tier == "quick" else 90), self.bad_rate)
+                if rng.random() < 0.3:
+                    toks = gadget_prefix(rng, kind) + toks
                 f = " factor=%s" % rng.choice(FACTORS) if kind.endswith("_att") else ""
                 tr = " trace=1" if kind in MODELLED else ""
                 lines.append("dyn x kind=%s%s%s hist=%s" % (kind, f, tr, ";".join(toks)))
